@@ -3629,9 +3629,11 @@ impl CanonicalizeContext {
 			if !is_int(&first_child) {
 				return Ok( false );
 			}
-			let slash_part = canonicalize.canonicalize_mrows(as_element(fraction_children[1]))?;
+			// this is only a look ahead: canonicalizing here moved the children out of an mrow that the caller still has to
+			// parse ('2 3/(p q)' lost its denominator); single-child mrows have been lifted by clean_mathml already
+			let slash_part = as_element(fraction_children[1]);
 			if name(&slash_part) == "mo" && as_text(slash_part) == "/" {
-				let denom = canonicalize.canonicalize_mrows(as_element(fraction_children[2]))?;
+				let denom = as_element(fraction_children[2]);
 				return Ok( is_int(&denom) );
 			}
 			return Ok( false );
